@@ -121,7 +121,61 @@ pub(crate) fn event(kind: &'static str, chan: usize, snapshot: Option<Snapshot>,
             a,
             b,
         });
+    } else if let Some(file) = trace_file() {
+        // Without installed hooks, events can still be appended to a file named by the
+        // `EMIT_BATCHER_VERIF_TRACE` environment variable, one JSON object per line.
+        // This lets unmodified programs (like this crate's own tests) be traced.
+        use std::io::Write;
+
+        let seq = next_seq();
+        let (has, s) = match snapshot {
+            Some(s) => (1, s),
+            None => (
+                0,
+                Snapshot {
+                    pending: 0,
+                    is_open: false,
+                    is_in_batch: false,
+                    on_flush: 0,
+                    on_take: 0,
+                },
+            ),
+        };
+
+        let _ = writeln!(
+            file.lock().unwrap(),
+            "{{\"pid\":{},\"seq\":{},\"kind\":\"{}\",\"chan\":{},\"a\":{},\"b\":{},\"snap\":{},\"pending\":{},\"open\":{},\"inb\":{},\"nf\":{},\"nt\":{}}}",
+            std::process::id(),
+            seq,
+            kind,
+            chan % 1_000_000_007,
+            a,
+            b,
+            has,
+            s.pending,
+            s.is_open,
+            s.is_in_batch,
+            s.on_flush,
+            s.on_take,
+        );
     }
+}
+
+fn trace_file() -> Option<&'static std::sync::Mutex<std::fs::File>> {
+    static FILE: std::sync::OnceLock<Option<std::sync::Mutex<std::fs::File>>> =
+        std::sync::OnceLock::new();
+
+    FILE.get_or_init(|| {
+        let path = std::env::var_os("EMIT_BATCHER_VERIF_TRACE")?;
+
+        std::fs::OpenOptions::new()
+            .create(true)
+            .append(true)
+            .open(path)
+            .ok()
+            .map(std::sync::Mutex::new)
+    })
+    .as_ref()
 }
 
 pub(crate) fn chan<T>(shared: &Arc<Shared<T>>) -> usize {
